@@ -313,7 +313,12 @@ class Conn:
         self.written += data
         if fault:
             self.fail_write_at = None
-            tr._force_close(BrokenPipeError(32, "Broken pipe (injected)"))
+            exc = {"reset": ConnectionResetError(104, "Connection reset by peer (injected)"),
+                   "timeout": TimeoutError(110, "Connection timed out (injected)"),
+                   "oserror": OSError(5, "Input/output error (injected)"),
+                   }.get(getattr(self, "fail_exc", None),
+                         BrokenPipeError(32, "Broken pipe (injected)"))
+            tr._force_close(exc)
             return
         if tr._stalled:
             tr._buffer.append(data)
